@@ -26,13 +26,15 @@ MAKERS = [
 NEGATIVE_CATS = ("syntax", "runtime", "algorithmic", "instructor", "specification")
 
 
-def _run(idx, acts, mutes, msgs, sup_instr, sup_runtime, hide):
+def _run(idx, acts, mutes, msgs, sup_instr, sup_runtime, hide, unscored=(False, False, False)):
     r = Report()
     fbs = []
     for i, k in enumerate(idx):
         kw = {"activate": acts[i]}
         if mutes[i]:
             kw["muted"] = True
+        if unscored[i]:
+            kw["unscored"] = True
         fbs.append(MAKERS[k][1](r, msgs[i], kw))
     if sup_instr:
         r.suppress("instructor")
@@ -93,6 +95,78 @@ def correct3(k1a: bool, k1b: bool, k1c: bool, k2a: bool, k2b: bool, k2c: bool,
     k0 = int(PART) if PART else 0
     return _run([k0, bits(k1a, k1b, k1c), bits(k2a, k2b, k2c)], [a0, a1, a2], [mu0, mu1, mu2],
                 ["m0", "m1", "m2"], sup_instr, False, False)
+
+
+def correct_unscored(k1a: bool, k1b: bool, k1c: bool, k1d: bool, a0: bool, a1: bool, mu0: bool, mu1: bool,
+                     un0: bool, un1: bool, sup_instr: bool) -> bool:
+    """
+    `unscored=True` takes a feedback out of the SCORE, not out of the verdict: two feedback calls (first = partition) with
+    symbolic activate / muted / unscored; a visible triggered mistake keeps the result incorrect whether or not it is scored.
+
+    pre: True
+    post: _
+    """
+    if tick():
+        return True
+    k0 = int(PART) if PART else 4
+    k1 = bits(k1a, k1b, k1c, k1d)
+    if k1 >= len(MAKERS):
+        return True
+    return _run([k0, k1], [a0, a1], [mu0, mu1], ["m0", "m1"], sup_instr, False, False, unscored=(un0, un1))
+
+
+def _expected(fbs, cats, sup_cats, sup_labels):
+    expected = True
+    for fb, cat in zip(fbs, cats):
+        suppressed = cat in sup_cats or fb.label in sup_labels
+        if bool(fb) and not fb.muted and not suppressed and fb.kind != COMPLIMENT and not fb.correct:
+            expected = False
+    return expected
+
+
+def correct_again(k1a: bool, k1b: bool, k1c: bool, k1d: bool, a0: bool, a1: bool, mu0: bool,
+                  s0: bool, s1: bool, s2: bool) -> bool:
+    """
+    Histories on ONE report: two feedback calls (first = partition), resolve, then one change of what is visible -
+    suppress(category of the first) / suppress(label=its label) / its muted flag flipped / one more triggered mistake /
+    set_correct() added / nothing - and resolve AGAIN: each result is the verdict for the report's state at that moment.
+
+    pre: True
+    post: _
+    """
+    if tick():
+        return True
+    k0 = int(PART) if PART else 4
+    k1, step = bits(k1a, k1b, k1c, k1d), bits(s0, s1, s2)
+    if k1 >= len(MAKERS) or step >= 6:
+        return True
+    r = Report()
+    kw0 = {"activate": a0}
+    if mu0:
+        kw0["muted"] = True
+    fbs = [MAKERS[k0][1](r, "m0", kw0), MAKERS[k1][1](r, "m1", {"activate": a1})]
+    cats = [MAKERS[k0][2], MAKERS[k1][2]]
+    first = simple.resolve(r)
+    if first.correct is not _expected(fbs, cats, (), ()):
+        return False
+    sup_cats, sup_labels = (), ()
+    if step == 0:
+        r.suppress(cats[0])
+        sup_cats = (cats[0],)
+    elif step == 1:
+        r.suppress(label=fbs[0].label)
+        sup_labels = (fbs[0].label,)
+    elif step == 2:
+        fbs[0].muted = not fbs[0].muted
+    elif step == 3:
+        fbs.append(gently("one more", report=r))
+        cats.append("instructor")
+    elif step == 4:
+        fbs.append(set_correct(report=r))
+        cats.append("complete")
+    second = simple.resolve(r)
+    want = _expected(fbs, cats, sup_cats, sup_labels)
+    return second.correct is want and second.success is want
 
 
 def correct_reach(a0: bool, a1: bool, mu1: bool) -> bool:
